@@ -328,7 +328,7 @@ class SMUserList(UserList, ABC):
         """
         if not type(self) == type(value):
             raise ValueError("can't insert different type of object")
-        if len(value) > 1:
+        if len(value) != 1:
             raise ValueError("can't insert a multivalued element - must have len() == 1")
         self.data[i] = value.A
 
@@ -369,7 +369,7 @@ class SMUserList(UserList, ABC):
         #print('in append method')
         if not type(self) == type(item):
             raise ValueError("can't append different type of object")
-        if len(item) > 1:
+        if len(item) != 1:
             raise ValueError("can't append a multivalued instance - use extend")
         super().append(item.A)
         
@@ -431,7 +431,7 @@ class SMUserList(UserList, ABC):
         """
         if not type(self) == type(item):
             raise ValueError("can't insert different type of object")
-        if len(item) > 1:
+        if len(item) != 1:
             raise ValueError("can't insert a multivalued instance - must have len() == 1")
         super().insert(i, item._A)
         
